@@ -75,7 +75,9 @@ def allForms : List String := ["cstr", "cstr8", "sized", "sized8", "str"]
 def affixForms : List String := ["cstr", "cstr8", "str"]
 
 def positions (hayLen : Nat) : List String :=
-  "none" :: ((List.range (hayLen + 3)).map toString ++ [toString SIZE_MAX])
+  "none" :: ((List.range (hayLen + 3)).map toString ++ [toString SIZE_MAX] ++
+    -- positions within a needle length of SIZE_MAX and around 2^63 (the same list as harness/search.cpp `positions`)
+    ["18446744073709551614", "18446744073709551613", "18446744073709551612", "9223372036854775808", "9223372036854775807", "4294967296"])
 
 structure Acc where
   f : Fnv := {}
